@@ -552,7 +552,13 @@ func c16GRPC(c *ctx) {
 		b := backs[nme]
 		c.R.SetCounter("backend_"+nme+"_calls", b.calls.Load())
 		c.R.SetCounter("backend_"+nme+"_connections", b.ln.accepted.Load())
-		if acceptedAfterWarmup[nme] >= 1 && b.ln.accepted.Load() > acceptedAfterWarmup[nme] {
+		// one pooled connection per backend and listener: delta is reached through the grpcs listener and through the plain
+		// one, each with a pool of its own, whichever of the two the first calls happened to use
+		allowed := acceptedAfterWarmup[nme]
+		if nme == "delta" && allowed < 2 {
+			allowed = 2
+		}
+		if acceptedAfterWarmup[nme] >= 1 && b.ln.accepted.Load() > allowed {
 			c.R.Violate("c16:connection-not-reused", fmt.Sprintf("backend %s: %d connections accepted for %d calls (had %d after the first calls)", nme, b.ln.accepted.Load(), b.calls.Load(), acceptedAfterWarmup[nme]), nil)
 		}
 	}
